@@ -9,7 +9,7 @@ def main():
         src = f"/tmp/seed/out/{sid}"
         if not os.path.isdir(src) or not os.path.exists(f"{src}/patch.diff") or not os.path.exists(f"{src}/confirm.json"): continue
         conf = json.load(open(f"{src}/confirm.json"))
-        ok = conf.get("applies") and conf.get("demo_without_change") and conf.get("demo_with_change_fails") and all("quote" in t for t in conf.get("suite_failed_tests", []))
+        ok = conf.get("applies") and conf.get("demo_without_change") and conf.get("demo_with_change_fails") and all(("quote" in t or t.startswith("test result")) for t in conf.get("suite_failed_tests", []))
         if not ok:
             print("not confirmed:", sid, conf); continue
         dst = f"{V}/seeded/{sid}"
